@@ -51,6 +51,7 @@ LAMBDA_POOL = ["lambda {n}: {n}", "lambda {n}=0: {n}", "lambda q, {n}: q", "lamb
                "f(lambda {n}: 0)", "{{'k': lambda {n}, q: q}}", "[lambda {n}: {n}, 1]", "lambda {n}: lambda {m}: {n}",
                "(lambda {n}: {n})(1)", "g(key=lambda {n}, {m}=1: {m})"]
 
+SEEN_CONSTS: List[str] = []               # per worker process: constant defaults in the order pydoctor first met them
 CASES: List[Dict[str, Any]] = []          # set before forking the pool: workers receive index ranges only
 RICH = False
 
@@ -213,6 +214,7 @@ def work(span: Tuple[int, int, int]) -> Dict[str, Any]:
     cases = CASES[lo:hi]
     lines = ["from typing import overload, List, Optional, Dict, Callable, Tuple, Literal", "import typing"]
     exs = []
+    ctxs: List[str] = []      # what the process had displayed before each definition (order-dependent defects replay with it)
     for k, rec in enumerate(cases):
         rng = random.Random(f"{seed}:{lo + k}") if RICH else None
         ex = exprs_for(rec, rng)
@@ -220,6 +222,10 @@ def work(span: Tuple[int, int, int]) -> Dict[str, Any]:
         src = write_def(f"f{lo + k}", rec, ex)
         check_ast_view(rec, ex, src)
         lines.append(src)
+        ctxs.append("def ctx(" + ", ".join(f"c{n}={t}" for n, t in enumerate(SEEN_CONSTS)) + "): pass")
+        for i in sorted(ex["default"]):
+            if ex["default"][i] in CONST_POOL and ex["default"][i] not in SEEN_CONSTS:
+                SEEN_CONSTS.append(ex["default"][i])
     # overload groups: every 4th case, three per function, each overload keeps its own layout
     members = [k for k in range(len(cases)) if (lo + k) % 4 == 0]
     groups = [members[i:i + 3] for i in range(0, len(members), 3)]
@@ -295,7 +301,7 @@ def work(span: Tuple[int, int, int]) -> Dict[str, Any]:
             continue
         text = flatten_text(format_signature(fn)) if isinstance(fn, model.Function) else "<missing>"
         out["n"] += 1
-        judge(rec, exs[k], text, "def", src)
+        judge(rec, exs[k], text, "def", src, {"context_src": ctxs[k]} if RICH else None)
         if k == 0:
             out["samples"].append({"source": src, "displayed": text})
     for gi, grp in enumerate(groups):
@@ -313,6 +319,8 @@ def work(span: Tuple[int, int, int]) -> Dict[str, Any]:
             text = flatten_text(format_signature(ovs[j])) if j < len(ovs) else "<missing overload>"
             out["n_overloads"] += 1
             grp_src = {"group_src": "\n".join(own + [f"def g{lo}_{gi}(*args, **kwargs): pass"]), "index": j}
+            if RICH:
+                grp_src["context_src"] = ctxs[k]
             judge(cases[k], exs[k], text, "overload", src, grp_src)
             # the presentation of the overload on the page is `def name<signature>:`
             shown = page[j] if j < len(page) else "<missing>"
@@ -491,6 +499,13 @@ def replay(ctx: Ctx, path: str) -> int:
     is_ov = w["origin"].startswith("overload")
     name = src.split("def ", 1)[1].split("(", 1)[0]
     j = w.get("index", 0)
+    if w.get("context_src"):               # what the process had displayed before (constants, in that order)
+        s0 = model.System()
+        s0.msg = lambda *a, **k: None  # type: ignore[method-assign]
+        b0 = s0.systemBuilder(s0)
+        b0.addModuleString(w["context_src"] + "\n", modname="ctx")
+        b0.buildModules()
+        flatten_text(format_signature(s0.allobjects["ctx.ctx"]))
     b.addModuleString(pre + (w["group_src"] if is_ov and "group_src" in w else src) + "\n", modname="m")
     try:
         b.buildModules()
